@@ -161,10 +161,12 @@ def obligations(ctx, cfg):
     obs = _old_c06(ctx, cfg) + [PullRace(ctx, 1, ('post',)),
                                 ConsumerRace(ctx, 'C06.e-race-pull-nack', ['pull'], ['nack'], n_out=1, n_back=0),
                                 ConsumerRace(ctx, 'C06.e-race-pull-expire', ['pull'], ['expire'], n_out=1, n_back=0),
-                                ConsumerRace(ctx, 'C06.e-race-stream-post', ['stream'], ['post'], n_out=0, n_back=0)]
+                                ConsumerRace(ctx, 'C06.e-race-stream-post', ['stream'], ['post'], n_out=0, n_back=0),
+                                ConsumerRace(ctx, 'C06.f-stalled-stream-then-pull-post', ['stream', 'pull'], ['post'], n_out=0, n_back=1, stall_after=1, backlog_exact=1, first=(0,))]
     if cfg['tier'] == 'thorough':
         obs += [PullRace(ctx, 1, ('post', 'post')), PullRace(ctx, 2, ('post',), n_out=0),
                 ConsumerRace(ctx, 'C06.e-race-stream-nack', ['stream'], ['nack'], n_out=1, n_back=0),
                 ConsumerRace(ctx, 'C06.e-race-stream-expire', ['stream'], ['expire'], n_out=1, n_back=0),
+                ConsumerRace(ctx, 'C06.f-stalled-stream-pull-post', ['stream', 'pull'], ['post'], n_out=0, n_back=1, stall_after=1, backlog_exact=1),
                 ConsumerRace(ctx, 'C06.e-race-pull-post-nack', ['pull'], ['post', 'nack'], n_out=1, n_back=0)]
     return obs
